@@ -50,6 +50,8 @@ Inductive kind :=
 | KErrCalc (X : tensor F) (R : nat) (w : option (list F)) (fs : list (tensor F)) (M : tensor F) (n : nat) (rep : F)
 | KTucker (X G : tensor F) (fs : list (tensor F)) (mask : option (tensor F)) (rep : F)
 | KHooi (X G : tensor F) (rep : F)
+| KEvents (modes : list nat) (normalize norm_in_sweep linesearch cb : bool) (n_iter_max : nat) (stop_at : option nat)
+          (decisions : list bool) (observed : list nat)
 | KP2Len (ls normalize : bool) (n_iter_max n_reported : nat)
 | KSparsify (t : tensor F) (card : nat) (out : tensor F)
 | KTR (X : tensor F) (cores : list (tensor F)) (rep : F)
@@ -58,6 +60,21 @@ Inductive kind :=
 | KCmtf (X : tensor F) (R : nat) (fs : list (tensor F)) (Y : tensor F) (fsY : list (tensor F)) (w wY : option (list F)) (rep : F)
 | KTrace (modes : list nat) (normalize linesearch cb : bool) (n_iter_max : nat) (stop_at : option nat) (accept_ls : bool)
          (obs : trace_obs).
+
+(* canonical form of an event list, applied to BOTH sides: what matters for "which iterate does an error belong to" is the order of
+   the block updates, the kind and position of the error computations and the callbacks.  A normalisation is kept only where it
+   would matter - between a block update and the next error computation (there must be none); an MTTKRP recomputed for the same
+   mode right away is the same event (it does not read its own factor: C06_mttkrp_ignores_own_mode). *)
+Fixpoint next_is_error (l : list nat) : bool :=
+  match l with [] => false | y :: l' => if Nat.eqb y 1%nat then next_is_error l' else Nat.eqb y 2%nat || Nat.eqb y 3%nat end.
+Fixpoint canon_events (prev : nat) (l : list nat) : list nat :=
+  match l with
+  | [] => []
+  | x :: l' =>
+      if Nat.eqb x 1%nat then (if Nat.leb 10%nat prev && next_is_error l' then 1%nat :: canon_events prev l' else canon_events prev l')
+      else if Nat.leb 10%nat x then (if Nat.eqb x prev then canon_events prev l' else x :: canon_events x l')
+      else x :: canon_events 0%nat l'
+  end.
 
 Definition count_events {B E} (p : event B E -> bool) (l : list (event B E)) : nat := length (filter p l).
 
@@ -85,6 +102,15 @@ Definition agree_kind (k : kind) : bool :=
   | KErrCalc X R w fs M n rep => rel_close (err_shortcut_with Op X R w fs M n) rep
   | KTucker X G fs mask rep => rel_close (err_explicit Op X (tucker_tensor_entry Op G fs) None mask) rep
   | KHooi X G rep => rel_close_abs (err_hooi Op X G) rep
+  | KEvents modes nrm nis ls cb n stop_at decs observed =>
+      (* event-level trace of the loop skeleton; the line-search decisions are the ones the implementation printed *)
+      let orc := @mkOracle unit (fun _ _ _ => tt) (fun st => st) (fun _ _ st => st)
+                           (fun it => nth (Nat.div (it - 6) 2) decs false)
+                           (fun _ => false) (fun it => match stop_at with Some j => Nat.eqb it j | None => false end) in
+      let cfg := mkConfig modes (last modes 0%nat) nrm nis false ls true cb in
+      let l := @run unit unit (fun _ _ _ => tt) (fun _ => tt) orc cfg n (fun _ => tt) in
+      (* the callback issued before the loop is preceded by an explicit error computation *)
+      nat_list_eqb (canon_events 0%nat ((if cb then [3%nat] else []) ++ obs_of_trace false (trace l))) (canon_events 0%nat observed)
   | KP2Len ls nrm n n_rep =>
       (* PARAFAC2 loop skeleton (no stop): one value per iteration, line-search iterations included *)
       let orc := @mkP2 unit (fun _ st => st) (fun _ _ st => st) (fun _ => true) (fun st => st) (fun _ => false) in
